@@ -168,7 +168,7 @@ def tie_props():
 # further proof files whose theorems belong to a property (delta-form model -> C16; second cov file -> C19)
 EXTRA_FILES = {"C01": ["C04b", "C01b"], "C02": ["C02b"], "C03": ["C03b"], "C04": ["C04b"], "C05": ["C04b", "C06b"], "C06": ["C07b", "C06b"],
                "C07": ["C07b"], "C08": ["C08b", "C08c"], "C09": ["C09b", "C09c"], "C10": ["C10b"], "C11": ["C10b", "C11b"], "C12": ["C12b"],
-               "C13": ["C14b"], "C14": ["C14b", "C14cA", "C14cB", "C14cC", "C14cD", "C14c"], "C15": ["C15b"], "C16": ["Forms", "C16c"], "C17": ["C17b"], "C18": ["C18b", "C18c"],
+               "C13": ["C14b"], "C14": ["C14b", "C14cA", "C14cB", "C14cC", "C14cD", "C14c", "C14d"], "C15": ["C15b"], "C16": ["Forms", "C16c"], "C17": ["C17b"], "C18": ["C18b", "C18c"],
                "C19": ["C19b", "C19c"], "C20": ["C20b", "C20c", "C20d"]}
 
 # which Tie theorems (source-regenerated tables = model tables) serve which property
